@@ -56,3 +56,19 @@ __CPROVER_ensures((__CPROVER_return_value == mtbl_res_success && ((struct reader
 ;
 void h_reader_next_dfcc(void) { void *v; const uint8_t **k, **val; size_t *lk, *lv; reader_iter_next(v, k, lk, val, lv); VG_REACH("reader_iter_next returns"); }
 void h_reader_seek_dfcc(void) { void *v; const uint8_t *k; size_t lk; reader_iter_seek(v, k, lk); VG_REACH("reader_iter_seek returns"); }
+
+/* ---- base case of the invariant: reader_iter_init (used by get / get_prefix / get_range) establishes it */
+static struct reader_iter vg_it_obj; unsigned vg_frees;
+void *my_calloc__cap(size_t a, size_t b) __CPROVER_requires(1) __CPROVER_assigns(__CPROVER_object_whole(&vg_it_obj)) __CPROVER_ensures(__CPROVER_return_value == (void *)&vg_it_obj && vg_it_obj.b == NULL && vg_it_obj.bi == NULL && vg_it_obj.index_iter == NULL) ;
+void free__cap(void *p) __CPROVER_requires(p == (void *)&vg_it_obj) __CPROVER_assigns(vg_frees) __CPROVER_ensures(vg_frees == __CPROVER_old(vg_frees) + 1) ;
+struct reader_iter *reader_iter_init__spec(struct mtbl_reader *r, const uint8_t *key, size_t len_key)
+__CPROVER_requires(__CPROVER_is_fresh(r, sizeof(*r)))
+__CPROVER_requires(vg_fresh_blk != NULL && vg_fresh_bi != NULL && vg_get_block_calls == 0 && vg_frees == 0)
+__CPROVER_assigns(__CPROVER_object_whole(&vg_it_obj), vg_blk_ptr, vg_blk_off, vg_get_block_calls, vg_frees)
+/* no block for the key (past the last block): nothing is left behind */
+__CPROVER_ensures(__CPROVER_return_value == NULL ==> vg_frees == 1)
+/* otherwise the iterator holds the block its index entry points at, knows that block's offset, and is positioned but has not yet returned the entry */
+__CPROVER_ensures(__CPROVER_return_value != NULL ==> (__CPROVER_return_value == &vg_it_obj && vg_frees == 0 && vg_it_obj.r == r && vg_it_obj.b != NULL && VG_RI1(&vg_it_obj) && vg_it_obj.block_offset == vg_dec_off
+                  && vg_get_block_calls == 1 && vg_it_obj.first && vg_it_obj.valid && vg_it_obj.bi != NULL && vg_it_obj.index_iter != NULL))
+;
+void h_reader_init_iter_dfcc(void) { struct mtbl_reader *r; const uint8_t *k; size_t l; struct reader_iter *it = reader_iter_init(r, k, l); VG_REACH("reader_iter_init returns"); }
